@@ -454,4 +454,16 @@ def minimal_doc(cli, pr):
     return ""
 
 
-# MUTANTS: see the block appended after mutation testing
+# MUTANTS (scratch worktree /tmp/wt-c27 = /repo HEAD + hooks/H5-route-trace.patch, CLI rebuilt per set, quick tier):
+#  M1 jq_runner.rs collapse_duplicate_fields keeps the FIRST value (lazy printer only)
+#       -> VIOLATION exit 1 (jq `(.)?` vs `(.)? # input` on a document with duplicate keys; 8 disagreeing jq pairs)
+#  M4 jq_runner.rs print_json compact cursor array loop drops elements after the 4th (lazy printer only)
+#       -> VIOLATION exit 1 (jq -c `.` vs `. # input`; also 10 of 12 --preserve-input `.` vs `.|.` pairs disagree)
+#  M5 yq_runner.rs OutputConfig::from_args `sort_keys: args.sort_keys` -> `true` (DOM route sorts keys)
+#       -> VIOLATION exit 1 when run alone (yq -o json `(.)?` vs --arg _verif x; 12 disagreeing yq pairs, 0 on the unchanged tree)
+#  M6 yq_runner.rs stream_cursor! m2_json: `result.stream_json(out, json_indent, true, ..)` (streaming route sorts keys)
+#       -> VIOLATION exit 1 (yq -o json `(.)?` vs --arg _verif x; 11 disagreeing yq pairs)
+#  Not a mutant under the chosen reading: "streaming formatter prints integer-valued floats differently" (1 vs 1.0) is
+#  value-equal; the unchanged tree already does this (-p json -o json: streaming `1`, DOM `1.0`) -- counted as
+#  presentation_only_differences in evidence.
+#  Unchanged tree: exit 0 with one KNOWN-FINDING (known_findings.d/C27.json, yq -I 0 YAML output on the DOM route).
